@@ -18,6 +18,14 @@ let () = run_lines (fun toks ->
     let fuel g = nat_of_int (List.length s + 2 * List.length g + 4) in
     (match op with
      | "irr" -> b2s (Model.is_irreducible p (poly_of a.(0)) p) ^ " #0"
+     | "irr2" -> b2s (Model.is_irreducible2 p (poly_of a.(0)) p) ^ " #0"
+     | "irrb" -> b2s (Model.brute_irreducible p (poly_of a.(0))) ^ " #0"
+     | "border" -> let f = poly_of a.(1) in
+       let n = List.length f - 1 in
+       let rec pw b e = if e = 0 then ZA.one else ZA.mul b (pw b (e - 1)) in
+       string_of_z (Model.brute_order p (poly_of a.(0)) f (z_of_za (pw (za_of_z p) n))) ^ " #0"
+     | "ixe2" -> (match Model.ixe_irreducible2 p (nat_of_int (int_of_string a.(0))) p s with
+         | None -> none | Some (r, s') -> str_poly r ^ used s')
      | "sqrfree" ->
        let pp = poly_of a.(0) in
        let nb = if Array.length a > 1 then zs a.(1) else z_of_string (string_of_int (List.length pp)) in
